@@ -931,3 +931,29 @@ package server
 //@   frame-by-effects
 //@   modifies steps, perCall
 //@   at-call tokenval#18 [roam-pattern-flag] lfs.roam.on && lfs.roam.pattern == isGlobPat(lfs.roam.id)
+
+// ---- FSET against the map model (C01) ------------------------------------------------------------
+// The field arguments are applied one after the other to the object's field map: a field whose current value equals
+// the new one is left alone, any other is set (a later argument sees the effect of an earlier one on the same name);
+// the reply counts the sets. The stored object keeps its id, geometry and deadline.
+//@ ghost scratch objs0 map[string]ref
+//@ ghost func foldF(F map[string]ref, fs []ref, n int) map[string]ref
+//@ ghost func cntF(F map[string]ref, fs []ref, n int) int
+//@ axiom fold.fields.0: allof("map[string]ref", F, allof("[]ref", fs, foldF(F, fs, 0) == F && cntF(F, fs, 0) == 0))
+//@ axiom fold.fields.step: allof("map[string]ref", F, allof("[]ref", fs, allint(n, 0 <= n && n < len(fs) ==> foldF(F, fs, n+1) == ite(valEq(foldF(F, fs, n)[fldName(fs[n])], fldVal(fs[n])), foldF(F, fs, n), store(foldF(F, fs, n), fldName(fs[n]), fldVal(fs[n]))) && cntF(F, fs, n+1) == cntF(F, fs, n) + ite(valEq(foldF(F, fs, n)[fldName(fs[n])], fldVal(fs[n])), 0, 1))))
+//@ func Server.cmdFSET
+//@   frame-by-effects
+//@   uses fold.fields.0, fold.fields.step
+//@   entry-assume registriesNonNil(s) && allstr(k, (*s.cols)[k] != nil ==> colInv((*s.cols)[k])) && allint(c, allstr(k, allocated(astype(c, "collection.Collection").objs[k])))
+//@   requires s != nil && msg != nil
+//@   modifies steps, perCall
+//@   loop 3 invariant o != nil && col != nil && ofields == foldF(objFields(o), fields, idx3) && updateCount == cntF(objFields(o), fields, idx3) && col.objs[id] == o && colInv(col) && allocated(o)
+//@   ensures [error-changes-nothing] result2 != nil ==> *s.cols == old(*s.cols) && colsUntouched()
+//@   ensures [keyspace-untouched] *s.cols == old(*s.cols)
+//@   set-at-call Collection.Get#1 objs0 = col.objs
+//@   at-return [fset.model] result2 == nil && o != nil ==> col == old(*s.cols)[key] && o == objs0[id] && col.objs == store(objs0, id, result1.obj) && objID(result1.obj) == id && objGeo(result1.obj) == objGeo(o) && objExpires(result1.obj) == objExpires(o) && objFields(result1.obj) == foldF(objFields(o), fields, len(fields))
+//@   at-return [fset.updated] result2 == nil && o != nil ==> result1.updated == (cntF(objFields(o), fields, len(fields)) > 0)
+//@   at-return [fset.absent-xx] result2 == nil && o == nil ==> colsUntouched() && !result1.updated
+//@   at-return [fset.others] result2 == nil ==> allint(c, c != col ==> astype(c, "collection.Collection").objs == old(astype(c, "collection.Collection").objs))
+//@   at-return [reply] result2 == nil && msg.OutputType == RESP && !ret ==> result0 == respInt(ite(o != nil, cntF(objFields(o), fields, len(fields)), 0))
+//@   at-return [json-reply] result2 == nil && msg.OutputType == JSON && !ret ==> jsonDoc(result0)
